@@ -717,6 +717,45 @@ def column_case(rng):
     return {"kind": "column/" + flav, "ops": ops, "values": vals, "mask": mask}
 
 
+EQ_LEVELS = ["data", "column", "category", "block", "file"]
+
+
+def eqrows_case(rng):
+    """Two one-column tables that differ (at most) in their row count, compared with == at every level of the
+    hierarchy, built in memory or read back (lazily parsed, nothing accessed before the comparison)."""
+    flav = rng.choice(["t", "b"])
+    x = rng.choice(PLAIN)
+    r = rng.random()
+    if r < 0.3:
+        a, b = [x], [x] * rng.randint(2, 4)                  # one row vs n copies of that row
+    elif r < 0.5:
+        n = rng.randint(2, 4)
+        a = [rng.choice(PLAIN) for _ in range(n)]
+        b = a + [rng.choice(PLAIN + [a[-1]]) for _ in range(rng.randint(1, 2))]   # common prefix, n vs m rows
+    elif r < 0.65:
+        a = [x] * rng.randint(2, 4)
+        b = [x] * rng.randint(2, 4)                          # columns of equal strings of (possibly) different length
+    elif r < 0.85:
+        a = [rng.choice(PLAIN) for _ in range(rng.randint(1, 4))]
+        b = list(a)                                          # equal tables
+        if rng.random() < 0.4:
+            b[rng.randrange(len(b))] += "x"
+    else:
+        a, b = [], [x]                                       # 0 rows vs 1 (binary data/column only)
+    if rng.random() < 0.5:
+        a, b = b, a
+    ops = []
+    for level in EQ_LEVELS:
+        for sa, sb in (("f", "f"), ("p", "p"), ("f", "p")):
+            if not a or not b:
+                if flav != "b" or level not in ("data", "column") or (sa, sb) != ("f", "f"):
+                    continue
+            ops.append(f"eqrows {flav} {level} {sa} {sb} {enc_list(a)} {enc_list(b)}")
+    if not ops:
+        ops.append(f"eqrows b data f f {enc_list(a)} {enc_list(b)}")
+    return {"kind": "eqrows/" + flav, "ops": ops}
+
+
 def rowcount_history(rng):
     """Columns of a category replaced by longer/shorter ones between serialisations (cached _row_count)."""
     flav = rng.choice(["t", "b"])
@@ -806,6 +845,9 @@ def cases(rng, tier):
     # 6b. equality of two parsed files with different layouts of the same tables, before any access
     for _ in range(120 if quick else 3000):
         yield eqfiles_case(rng)
+    # 6b2. == of tables that differ only in their row count, at every level, fresh and parsed
+    for _ in range(60 if quick else 1500):
+        yield eqrows_case(rng)
     # 6c. explicitly masked columns: reads must not change them
     for _ in range(120 if quick else 3000):
         yield column_case(rng)
@@ -960,6 +1002,42 @@ def _col_roundtrip(flav, col, data):
     return [(k, [str(x) for x in back[k].as_array(str)], _mask_str(back[k])) for k in back]
 
 
+def _eqrows_obj(flav, level, state, vals):
+    import msgpack
+    import numpy as np
+    import biotite.structure.io.pdbx as pdbx
+    if flav == "t":
+        f = pdbx.CIFFile({"b": pdbx.CIFBlock({"c": pdbx.CIFCategory({"v": pdbx.CIFColumn(list(vals))})})})
+        if state == "p":
+            f = pdbx.CIFFile.deserialize(f.serialize())
+    else:
+        if not vals:
+            data = pdbx.BinaryCIFData(np.array([], dtype="U1"))
+            return data if level == "data" else pdbx.BinaryCIFColumn(data)
+        f = pdbx.BinaryCIFFile({"b": pdbx.BinaryCIFBlock({"c": pdbx.BinaryCIFCategory({"v": np.array(list(vals))})})})
+        if state == "p":
+            packed = msgpack.packb(f.serialize(), use_bin_type=True, default=pdbx.bcif._encode_numpy)
+            f = pdbx.BinaryCIFFile.deserialize(msgpack.unpackb(packed, use_list=True, raw=False))
+    if level == "file":
+        return f
+    if level == "block":
+        return f["b"]
+    if level == "category":
+        return f["b"]["c"]
+    if level == "column":
+        return f["b"]["c"]["v"]
+    return f["b"]["c"]["v"].data
+
+
+def _eqrows_eval(w):
+    a = _eqrows_obj(w[1], w[2], w[3], dec_list(w[5]))
+    b = _eqrows_obj(w[1], w[2], w[4], dec_list(w[6]))
+    r = a == b
+    if not isinstance(r, (bool,)) and type(r).__name__ != "bool_":
+        return "NOT-A-BOOL:" + type(r).__name__
+    return bool(r)
+
+
 def _rc_col(flav, n):
     import biotite.structure.io.pdbx as pdbx
     return pdbx.CIFColumn([str(i) for i in range(n)]) if flav == "t" else pdbx.BinaryCIFColumn(list(range(n)))
@@ -1030,6 +1108,8 @@ def run_impl(case):
                             cs.append(_optname(cn) + ":!")
                     bs.append(enc(bn) + "@" + ("_" if not cs else "/".join(cs)))
                 out.append("ok " + ("_" if not bs else "|".join(bs)))
+            elif w[0] == "eqrows":
+                out.append("ok " + str(_eqrows_eval(w)))
             elif w[0] == "lazyget":
                 f = pdbx.CIFFile.deserialize(dec(w[1]))
                 cat = f[dec(w[2])][None if w[3] == "~" else dec(w[3])]
@@ -1388,7 +1468,29 @@ def _column_oracle(case):
     return []
 
 
+def _eqrows_oracle(case):
+    """== returns a bool and equals the comparison of the stored tables (here: of the two value lists)."""
+    for op in case["ops"]:
+        w = op.split()
+        exp = dec_list(w[5]) == dec_list(w[6])
+        try:
+            got = _eqrows_eval(w)
+        except Exception as e:  # noqa: BLE001
+            got = type(e).__name__
+        if got != exp:
+            if w[1] == "b" and w[3] != w[4] and got is False and exp is True:
+                return [("C06/container/binary/eq-unserialised-encoding",
+                         f"{op}: equal tables, one built in memory and one read back, compare unequal")]
+            flav = "text" if w[1] == "t" else "binary"
+            return [(f"C06/container/{flav}/eq-row-count",
+                     f"{w[2]} level, {w[3]} vs {w[4]}: {dec_list(w[5])} == {dec_list(w[6])} gave {got!r}, the tables are "
+                     f"{'equal' if exp else 'different'}")]
+    return []
+
+
 def oracle(case):
+    if case.get("kind", "").startswith("eqrows/"):
+        return _eqrows_oracle(case)
     if case.get("kind", "").startswith("column/"):
         return _column_oracle(case)
     if case.get("kind") == "eqfiles":
